@@ -77,7 +77,7 @@ func (n *vfNet) Now() time.Duration { return time.Since(n.t0) }
 func (n *vfNet) Endpoint(name, addr string) *vfEndpoint {
 	ep := &vfEndpoint{
 		net: n, name: name, addr: vfAddr(addr),
-		inbox: make(chan vfDatagram, 8192), closed: make(chan struct{}),
+		avail: make(chan struct{}, 1), closed: make(chan struct{}),
 		rdSig: make(chan struct{}), wrErr: nil,
 	}
 	n.mu.Lock()
@@ -119,14 +119,18 @@ func (n *vfNet) Deliver(addr string, data []byte, from net.Addr) bool {
 		return false
 	default:
 	}
+	// the inbox is unbounded (a bounded one turned handshake floods into silent loss of later
+	// application data, which the "reliable after the handshake" checks then misread); the storm
+	// cap on emissions bounds its size
+	ep.qmu.Lock()
+	ep.q = append(ep.q, vfDatagram{data: append([]byte(nil), data...), from: from})
+	ep.qmu.Unlock()
 	select {
-	case ep.inbox <- vfDatagram{data: append([]byte(nil), data...), from: from}:
-		return true
+	case ep.avail <- struct{}{}:
 	default:
-		n.dropFull.Add(1)
-
-		return false
 	}
+
+	return true
 }
 
 // DeliverAfter schedules a delivery after d (virtual) time.
@@ -215,7 +219,9 @@ type vfEndpoint struct {
 	net    *vfNet
 	name   string
 	addr   vfAddr
-	inbox  chan vfDatagram
+	qmu    sync.Mutex
+	q      []vfDatagram
+	avail  chan struct{}
 	closed chan struct{}
 	once   sync.Once
 
@@ -249,10 +255,28 @@ func (e *vfEndpoint) ReadFrom(b []byte) (int, net.Addr, error) {
 			timerC = tm.C
 		}
 		select {
-		case dg := <-e.inbox:
+		case <-e.avail:
 			if tm != nil {
 				tm.Stop()
 			}
+			e.qmu.Lock()
+			if len(e.q) == 0 {
+				e.qmu.Unlock()
+
+				continue
+			}
+			dg := e.q[0]
+			e.q[0] = vfDatagram{}
+			e.q = e.q[1:]
+			if len(e.q) > 0 {
+				select {
+				case e.avail <- struct{}{}:
+				default:
+				}
+			} else {
+				e.q = nil
+			}
+			e.qmu.Unlock()
 			e.reads.Add(1)
 			e.net.noteRead(e)
 			n := copy(b, dg.data)
